@@ -144,7 +144,11 @@ fn gram_strategy() -> BS<Gram> {
         1 => (1usize..=9).prop_map(|w| "0".repeat(w)),
         1 => (1usize..=9).prop_map(|w| "9".repeat(w)),
     ];
-    (day_0001_9999(), 0u32..24, 0u32..60, 0u32..60, frac, any::<bool>(), 0u8..4, 0u32..24, 0u32..60, proptest::option::of((0usize..9, prop::bool::weighted(0.2))))
+    // the day: any day, or a day that ends with a leap second / the day after it (an offset then carries the label
+    // across the inserted second)
+    let day = prop_oneof![6 => day_0001_9999(), 1 => (1usize..28, 0i64..=1).prop_map(|(i, dd)| leap_table()[i].0 / 86_400 - 1 + dd)];
+    let hour = prop_oneof![4 => 0u32..24, 1 => prop::sample::select(vec![0u32, 1, 22, 23])];
+    (day, hour, 0u32..60, 0u32..60, frac, any::<bool>(), 0u8..4, 0u32..24, 0u32..60, proptest::option::of((0usize..9, prop::bool::weighted(0.2))))
         .prop_map(|(day, hh, mm, ss, frac, space_sep, tz, oh, om, suffix)| {
             // 'Z' designates UTC: only combine it with no suffix or the UTC suffix
             let suffix = match (tz, suffix) {
